@@ -1,7 +1,7 @@
 (* C08 - dimension freedom: measurements depend on blade counts only modulo 4.  Pinned theorems only. *)
 From Coq Require Import ZArith List Bool Reals Lra.
 From Flocq Require Import Core BinarySingleNaN.
-Require Import GV.FloatBase GV.FloatLemmas GV.AngleM GV.AngleProofs GV.GeonumM GV.GeonumProofs GV.CollM GV.ShiftProofs GV.ShiftResults.
+Require Import GV.FloatBase GV.FloatLemmas GV.AngleM GV.AngleProofs GV.GeonumM GV.GeonumProofs GV.CollM GV.ShiftProofs GV.ShiftResults GV.NewProofs GV.CtorProofs GV.ClosureProofs GV.SumUpper GV.PiBounds GV.TrigProofs GV.DotValue GV.DistValue GV.DirProofs GV.SumDir GV.ShiftSum.
 Open Scope Z_scope.
 
 (* shift4 n a = the same remainder with 4n more blades (n may be negative) *)
@@ -64,3 +64,34 @@ Theorem C08_shift_def : forall n a g, shift4 n a = {| rem := rem a; blade := bla
   gshift4 n g = {| mag := mag g; ang := shift4 n (ang g) |}.
 Proof. intros; split; reflexivity. Qed.
 Print Assumptions C08_shift_def.
+
+(* SUMS under whole-turn shifts (REAL pi, cos, sin): the direction of an angle ignores whole turns EXACTLY, and the sum of
+   shifted operands (general path) reproduces the Cartesian sum V of the UNSHIFTED operands component by component, within
+   the tolerance T of C06_cartesian evaluated at the shifted blade sum (the only place where the shift enters: the
+   re-encoding allowance grows by 4e-15 per blade) *)
+Theorem C08_direction_shift : forall n a, dir (shift4 n a) = dir a.
+Proof. exact dir_shift. Qed.
+Print Assumptions C08_direction_shift.
+
+Theorem C08_sum_cartesian : forall (L : libm) (u u2 : R) a b m n, cos_acc L u -> sin_acc L u -> atan2_acc L u2 -> (u <= / 1000)%R ->
+  let a' := gshift4 m a in let b' := gshift4 n b in
+  canonp (rem (ang a)) -> canonp (rem (ang b)) ->
+  aeqb (ang a') (ang b') = false ->
+  aeqb (add_vv (ang a') (new one one)) (ang b') || aeqb (add_vv (ang b') (new one one)) (ang a') = false ->
+  (0 <= blade (ang a') + blade (ang b') < 2 ^ 40)%Z ->
+  fin (gadd_rad L a' b') ->
+  fin (fadd (fmul (mag a') (sinF L (grade_angle (ang a')))) (fmul (mag b') (sinF L (grade_angle (ang b'))))) ->
+  fin (fadd (fmul (mag a') (cosF L (grade_angle (ang a')))) (fmul (mag b') (cosF L (grade_angle (ang b'))))) ->
+  let r := gadd_vv L a' b' in
+  (let Vx := R_ (mag a) * cos (dir (ang a)) + R_ (mag b) * cos (dir (ang b)) in
+  let Vy := R_ (mag a) * sin (dir (ang a)) + R_ (mag b) * sin (dir (ang b)) in
+  let M := Rabs (R_ (mag a)) + Rabs (R_ (mag b)) in
+  let E := M * (u + 3 / 1000000000000000) + 4 * bpow radix2 (-1075) in
+  let S := R_ (mag a) * R_ (mag a) + R_ (mag b) * R_ (mag b) in
+  let Bnd := S * (u + 1 / 100000000000000) + 10 * bpow radix2 (-1075) in
+  let tolN := R_ eps10 + 3 / 100000000000000 + IZR (blade (ang a') + blade (ang b')) * (4 / 1000000000000000) in
+  let T := sqrt Bnd * (1 + / 9007199254740992) + / 9007199254740992 * sqrt (Vx * Vx + Vy * Vy) + bpow radix2 (-1075)
+           + 3 * E + (M + 2 * E) * (u2 + tolN) in
+  Rabs (R_ (mag r) * cos (dirR (ang r)) - Vx) <= T /\ Rabs (R_ (mag r) * sin (dirR (ang r)) - Vy) <= T)%R.
+Proof. exact sum_shift_cartesian. Qed.
+Print Assumptions C08_sum_cartesian.
